@@ -475,8 +475,35 @@ def serde (ws : List String) : String :=
   | "whole" :: _ => "rdout serde whole"
   | _ => "bad-op"
 
+/-- `node <arm> <present> <db> <user|-> <pass|->`: a sentinel Config with this node connection
+info, its sentinels named by url (`u`: constructor, `s`: struct) or connection (`c`) -/
+def node (ws : List String) : String :=
+  match ws with
+  | [arm, present, db, user, pass] =>
+    match db.toInt? with
+    | none => "bad-op"
+    | some db =>
+      let opt (w : String) : Option String := if w == "-" then none else some w
+      let n : Option NodeInfo :=
+        if present == "1" then
+          some { tlsMode := none,
+                 redis := some { db := db, username := opt user, password := opt pass, protocol := .resp2 } }
+        else none
+      let urls : Option Unit := if arm == "c" then none else some ()
+      let conns : Option Unit := if arm == "c" then some () else none
+      match sentinelNode urls conns n with
+      | none => "rdout node create-error"
+      | some n' =>
+        let w := nodeWire n'
+        let auth := match w.auth with
+          | none => "-"
+          | some (u, p) => s!"{u.getD "-"}:{p}"
+        s!"rdout node auth={auth} db={w.db} sentinel=asked"
+  | _ => "bad-op"
+
 def run (ws : List String) : String :=
   match ws with
+  | "node" :: rest => node rest
   | "cfg" :: _flavour :: rest => cfg rest
   | "conv" :: rest => conv rest
   | "serde" :: rest => serde rest
